@@ -125,6 +125,9 @@ func handCases(prop, tier string, seed uint64) []Case {
 		if init < 0 || r.Intn(3) == 0 {
 			fl |= os.O_CREATE
 		}
+		if r.Intn(6) == 0 {
+			fl |= os.O_SYNC
+		}
 		p := handP{Cfg: cfg, Init: init, Flag: fl, Steps: steps/2 + r.Intn(steps/2+1)}
 		if i%40 == 39 {
 			p.Steps *= 4 // long sequences on one handle
